@@ -1211,6 +1211,10 @@ class Connection(object):
                 self._process_segment_buffer()
                 self._io_buffer.reset_io_buffer()
 
+            if self.is_defunct:
+                # a failed segment or message fails the connection: nothing that follows it in the buffer is delivered
+                return
+
             if self._is_checksumming_enabled and not self._io_buffer.has_consumed_segment:
                 # We couldn't read an entire segment from the io buffer, so return
                 # control to allow more bytes to be read off the wire
